@@ -11,6 +11,7 @@ import Cicada.Spec.C14
 import Cicada.Spec.C15
 import Cicada.Spec.C06
 import Cicada.Model.History
+import Cicada.Model.EnvCd
 import Cicada.Spec.C17
 import Cicada.Spec.C03
 import Cicada.Spec.C01
@@ -300,6 +301,41 @@ partial def pBlockW : List String → C14.Block × List String
   | _ :: rest => pBlockW rest
 
 /-! ### job histories on the wire: `L:bg:gid:p.p`, `E:e|k|s|c:pid:val`, `W:gid:p.p`, `P` separated by `;` -/
+def strListDot (s : String) : List Str := if s = "" ∨ s = "~" then [] else (s.splitOn ".").map unhex
+
+def parseEnvOps (s : String) : List EnvCd.Op :=
+  (s.splitOn ";").filterMap (fun o => match o.splitOn ":" with
+    | ["a", n, v] => some (.assign (unhex n) (unhex v))
+    | ["p", n, v] => some (.prefixed (unhex n) (unhex v))
+    | ["x", n, v] => some (.export (unhex n) (unhex v))
+    | ["u", n] => some (.unset (unhex n))
+    | ["r", pre, names, line] =>
+      let pr : List (Str × Str) := match pre.splitOn "=" with
+        | [a, b] => [(unhex a, unhex b)]
+        | _ => []
+      some (.read pr (strListDot names) (unhex line))
+    | ["c", args] => some (.cd (strListDot args))
+    | _ => none)
+
+def parseTree (s : String) : EnvCd.Tree :=
+  if s = "[]" ∨ s = "" then [] else
+  (s.splitOn ",").filterMap (fun e => match e.splitOn ":" with
+    | [p, "d"] => some (unhex p, .dir)
+    | [p, "f"] => some (unhex p, .file)
+    | [p, "l", t] => some (unhex p, .link (unhex t))
+    | _ => none)
+
+def envObs (names : List Str) (st : EnvCd.St) (status : Int) (extra : List (Str × Str)) : String :=
+  let opt : Option Str → String := fun o => match o with | some x => hex x | none => "~"
+  let obs := names.map (fun n => hex (EnvCd.expandsTo st n) ++ "." ++ opt (lookup st.exported n) ++ "." ++ opt (lookup st.vars n))
+  s!"{status};{hex st.cwd};{hex st.prev};{",".intercalate obs};{pairsOut extra}"
+
+/-- blank-run guard for `read`: no two adjacent separators in the trimmed line -/
+def readRunFree (line : Str) : Bool :=
+  let t := trim line
+  let ws : Char → Bool := fun c => c = ' ' || c = '\t' || c = '\n'
+  !((t.zip (t.drop 1)).any (fun (a, b) => ws a && ws b))
+
 def natList (s : String) : List Nat := if s = "" ∨ s = "-" then [] else (s.splitOn ".").filterMap String.toNat?
 
 def parseJobOps (s : String) : List Jobs.Op :=
@@ -637,6 +673,34 @@ def answer (stream : String) (f : Array String) : Ans :=
       | .diverge _ => "HANG"
       | _ => "ERR"
     { m := m, s := s, guard := "1" }
+  | "envseq" =>
+    let init : EnvCd.St := { exported := pairsIn (g 0), cwd := unhex (g 3) }
+    let names := if g 1 = "[]" then [] else (g 1).splitOn "," |>.map unhex
+    let ops := parseEnvOps (g 4)
+    let fs := EnvCd.treeFs (parseTree (g 5))
+    let run := fun (stepf : EnvCd.St → EnvCd.Op → EnvCd.St × Int × List (Str × Str)) =>
+      (ops.foldl (fun (acc : EnvCd.St × List String) op =>
+        let (s', st, ex) := stepf acc.1 op
+        (s', acc.2 ++ [envObs names s' st ex])) (init, [])).2
+    let ok := ops.all (fun o => match o with | .read _ _ l => readRunFree l | _ => true)
+    { m := "|".intercalate (run (EnvCd.step fs)), s := "|".intercalate (run (EnvCd.specStep fs)),
+      guard := "1", cls := if ok then "-" else "read-blank-runs" }
+  | "envproc" =>
+    -- the same histories observed from outside: `$?`, the directory a relative redirection lands in, the
+    -- child's own cwd, `"$NAME"` expansions, and the child's environment
+    let init : EnvCd.St := { exported := pairsIn (g 0), cwd := unhex (g 3) }
+    let names := if g 1 = "[]" then [] else (g 1).splitOn "," |>.map unhex
+    let ops := parseEnvOps (g 4)
+    let fs := EnvCd.treeFs (parseTree (g 5))
+    let opt : Option Str → String := fun o => match o with | some x => hex x | none => "~"
+    let run := fun (stepf : EnvCd.St → EnvCd.Op → EnvCd.St × Int × List (Str × Str)) =>
+      (ops.foldl (fun (acc : EnvCd.St × List String) op =>
+        let (s', st, ex) := stepf acc.1 op
+        let line := s!"{st};{hex s'.cwd};{hex s'.cwd};{",".intercalate (names.map fun n => hex (EnvCd.expandsTo s' n))};{",".intercalate (names.map fun n => opt (EnvCd.childSees s' ex n))}"
+        (s', acc.2 ++ [line])) (init, [])).2
+    let ok := ops.all (fun o => match o with | .read _ _ l => readRunFree l | _ => true)
+    { m := "|".intercalate (run (EnvCd.step fs)), s := "|".intercalate (run (EnvCd.specStep fs)),
+      guard := "1", cls := if ok then "-" else "read-blank-runs" }
   | "jobs" =>
     let ops := parseJobOps (g 0)
     let (s, outs) := ops.foldl (fun (acc : Jobs.Sh × List String) op =>
